@@ -14,6 +14,11 @@ type OracleC19 struct {
 	counters
 	prevSpecs map[string]string
 	prevTeam  string
+	prevStake map[string]*stakeSnap // reporter -> bonded stake terms per selector at the end of the previous block
+	prevSel   map[string]string     // selector -> reporter at the end of the previous block
+	prevMin   map[string]*big.Int   // reporter -> its minimum bonded amount for selectors
+	prevCap   uint64
+	haveSel   bool
 }
 
 func NewOracleC19() *OracleC19 {
@@ -121,6 +126,78 @@ func (o *OracleC19) AfterBlock(c *Chain, b *BlockCtx) []*Violation {
 				cls = "spec-replaced-by-re-registration"
 			}
 			out = append(out, o.v(b.H, "registry", "SpecRegistry", cls, "data spec %q changed in block %d without a governance update (%d successful RegisterSpec in the block)", key, b.H, nReg))
+		}
+	}
+
+	// ---- somebody else's reporter selection is removed only under the stated exception: the selector fell below the
+	// minimum of a full reporter (judged on the state the block's transactions started from)
+	curStake, curSel := bondedStakeSnapshot(v)
+	curMin := map[string]*big.Int{}
+	for _, r := range v.Reporters() {
+		curMin[string(r.Addr)] = r.Rec.MinTokensRequired.BigInt()
+	}
+	rp, _ := b.Ref.App.ReporterKeeper.Params.Get(v.ctx)
+	pStake, pSel, pMin, pCap, have := o.prevStake, o.prevSel, o.prevMin, o.prevCap, o.haveSel
+	defer func() {
+		o.prevStake, o.prevSel, o.prevMin, o.prevCap, o.haveSel = curStake, curSel, curMin, rp.MaxSelectors, true
+	}()
+	if have {
+		firstStake := len(b.Txs) * 100
+		for i, tr := range b.Txs {
+			in := c.IntentOfTx(b, i)
+			if in == nil || tr.Code != 0 {
+				continue
+			}
+			for mi, m := range in.Msgs {
+				if stakeKinds[m.K] && m.K != "remove_selector" && i*100+mi < firstStake {
+					firstStake = i*100 + mi
+				}
+			}
+		}
+		for i, tr := range b.Txs {
+			in := c.IntentOfTx(b, i)
+			if in == nil || tr.Code != 0 {
+				continue
+			}
+			for mi := range in.Msgs {
+				m := &in.Msgs[mi]
+				if m.K != "remove_selector" || i*100+mi > firstStake {
+					continue
+				}
+				sel := c.Accounts.Addr(m.T)
+				signer := c.Accounts.Addr(in.Actor)
+				rep, had := pSel[string(sel)]
+				if !had || string(signer) == string(sel) {
+					continue
+				}
+				if _, still := curSel[string(sel)]; still {
+					continue
+				}
+				o.count("third_party_selector_removals")
+				stake := new(big.Int)
+				if sn := pStake[rep]; sn != nil {
+					for _, t := range sn.terms {
+						if t.Selector == string(sel) {
+							stake.Add(stake, t.Tokens)
+						}
+					}
+				}
+				n := 0
+				for _, r2 := range pSel {
+					if r2 == rep {
+						n++
+					}
+				}
+				min := pMin[rep]
+				if min == nil {
+					continue
+				}
+				belowMin := stake.Cmp(min) < 0
+				full := uint64(n) >= pCap
+				if !belowMin || !full {
+					out = append(out, o.v(b.H, "third-party", "remove_selector", "selection-removed-outside-the-exception", "tx %d: %s removed the reporter selection of %s (bonded stake %s, the reporter's minimum is %s; the reporter had %d selectors, cap %d): only a selector below the minimum of a full reporter may be removed by others", i, signer, sel, stake, min, n, pCap))
+				}
+			}
 		}
 	}
 
